@@ -384,5 +384,10 @@ func (t *TabList) processUpdateForEntry(actions []playerinfo.UpsertAction, info 
 			e.SetListOrderInternal(info.ListOrder)
 		})
 	}
+	if playerinfo.ContainsAction(actions, playerinfo.UpdateHatAction) {
+		doInternalEntity(currentEntry, func(e internalEntry) {
+			e.SetShowHatInternal(info.ShowHat)
+		})
+	}
 	return nil
 }
